@@ -190,7 +190,7 @@ def check_property(a):
           % (prop, len(results), len(counted), len(proved), len(refuted), len(unknown), len(seen_kf), exit_code, time.time() - t0))
     if a.v:
         for o in refuted + unknown:
-            print('  %s %s %s line=%s %s' % (o['status'], o['unit'], o['name'], o['line'], ((o.get('info') or {}).get('expr') or '')[:160]))
+            print('  %s[%s%s] %s %s line=%s %s' % (o['status'], o.get('backend'), ' WEAK-MODEL' if o.get('weak_model') else '', o['unit'], o['name'], o['line'], ((o.get('info') or {}).get('expr') or '')[:160]))
             if o.get('goal') and os.environ.get('PYVC_SHOW_GOAL'):
                 print('     goal:', o['goal'][-600:])
             if o.get('model'):
